@@ -462,6 +462,24 @@ def mentions_label(v, label):
 
 
 # ---------------------------------------------------------------------------- constructor
+def strip_max0(v):
+    """MAX(e, 0) -> e, outermost and on the column / row terms of e."""
+    if not isinstance(v, Sym):
+        return v
+    changed = True
+    while changed:
+        changed = False
+        for at in v.all_atoms():
+            if at[0] == 'f' and at[1] == 'MAX' and len(at[2]) == 2 and \
+                    any(a == Sym.const(0) for a in at[2]):
+                other = [a for a in at[2] if a != Sym.const(0)]
+                if len(other) == 1:
+                    v = v.subs({at: other[0]})
+                    changed = True
+                    break
+    return v
+
+
 def check_init(ck, prog, cls):
     fn = cls.lookup('__init__')
     q = fn.qualname
@@ -471,6 +489,13 @@ def check_init(ck, prog, cls):
         hk = GridHooks()
 
         def make_elem(node, it, st, hk=hk):
+            # the element of a loop over the vertices / over enumerate(vertices), whatever the
+            # shape of the loop target
+            if isinstance(it, Opaque) and it.label == 'param:vertices':
+                return pair
+            if isinstance(it, Opaque) and it.label == 'enumerate' and it.args and \
+                    isinstance(it.args[0], Opaque) and it.args[0].label == 'param:vertices':
+                return Tup((k, pair))
             names = [n.id for n in ast.walk(node.target) if isinstance(n, ast.Name)]
             if len(names) == 4:
                 return pair
@@ -601,6 +626,10 @@ def check_init(ck, prog, cls):
         want = [(cell_form(x1, y1, f_xmin, f_ymin, f_bsx, f_bsy), k)]
         if reverse:
             want.append((cell_form(x2, y2, f_xmin, f_ymin, f_bsx, f_bsy), pcount + k))
+        # every stored coordinate is >= the folded minimum, so column, row and cell are >= 0 in
+        # the writer: an additional lower clamp MAX(., 0) there changes nothing
+        appends = [(strip_max0(c), i) for c, i in appends]
+        stores = [(i, strip_max0(c)) for i, c in stores]
         ck.ob('C13-D3-writer-ids', '%s[%s]' % (q, tag),
               [(repr(c), repr(i)) for c, i in appends] == [(repr(c), repr(i)) for c, i in want],
               '%s (%s) stores (cell, id) = %s; expected the start of path k as id k in the cell of '
